@@ -78,18 +78,25 @@ def ServiceMethodOk (t : Test) : Prop := (t.service = "" ↔ t.method = "")
 
 instance (t : Test) : Decidable (ServiceMethodOk t) := by unfold ServiceMethodOk; infer_instance
 
+/-- no relevant list of the suite lists the value the case has on that axis twice -/
+def NoRepeat (s : Suite) (c : Case) : Prop :=
+  s.protocols.count c.p ≤ 1 ∧ s.versions.count c.v ≤ 1 ∧ s.codecs.count c.c ≤ 1 ∧ s.comps.count c.z ≤ 1
+
+instance (s : Suite) (c : Case) : Decidable (NoRepeat s c) := by unfold NoRepeat; infer_instance
+
 /-- The suite definitions are well-formed relative to a run: suites are named (distinctly) and
-non-empty; a suite taking part is not misconfigured and lists no relevant value twice; where it
-meets a config case every test has
-a name and a stream type and the tests of that stream type have service and method given together;
-and no two permutations spell the same name. -/
+non-empty; a suite taking part is not misconfigured; where it meets a config case every test has
+a name and a stream type, the tests of that stream type have service and method given together,
+and — when there is such a test — no relevant list repeats the case's value (the code would look
+the case up twice and define every permutation twice); and no two permutations spell the same
+name.  `newLibrary_accepts_iff` (Props/C07) proves that this is exactly what the code accepts. -/
 def WellFormed (join : List String → String) (suites : List Suite) (cases : List Case) (mode : Mode) : Prop :=
   (∀ s ∈ suites, s.name ≠ "" ∧ s.tests ≠ []) ∧
   (suites.map (·.name)).Nodup ∧
-  (∀ s ∈ suites, ModeAdmits s mode → ¬ Misconfigured s ∧
-    s.protocols.Nodup ∧ s.versions.Nodup ∧ s.codecs.Nodup ∧ s.comps.Nodup) ∧
+  (∀ s ∈ suites, ModeAdmits s mode → ¬ Misconfigured s) ∧
   (∀ s ∈ suites, ∀ c ∈ cases, Admits s mode c →
-    ∀ t ∈ s.tests, t.name ≠ "" ∧ t.st ≠ .unspec ∧ (t.st = c.s → ServiceMethodOk t)) ∧
+    (∀ t ∈ s.tests, t.name ≠ "" ∧ t.st ≠ .unspec ∧ (t.st = c.s → ServiceMethodOk t)) ∧
+    ((∃ t ∈ s.tests, t.st = c.s) → NoRepeat s c)) ∧
   ((specList join suites cases mode).map (·.fullName)).Nodup
 
 instance (join : List String → String) (suites : List Suite) (cases : List Case) (mode : Mode) :
